@@ -1,22 +1,44 @@
 """Property rule modules c01 .. c20 plus rules shared by all of them."""
 import importlib
 
+from mstatic.core import AnalysisError
+
 
 def run(ctx):
     """Run the rules of ctx.prop: the property's own module, then the
     explicit-argument rule (rules/args.py) when its table has entries for
-    the property, then the required-effects rule (rules/effects.py)."""
+    the property, then the required-effects rule (rules/effects.py).
+
+    An anchor lost in one stage (AnalysisError) does not hide violations
+    found by the others: the stages run independently; when at least one
+    violation was found it is reported (exit 1) together with the analysis
+    errors, otherwise the first analysis error is raised (exit 2)."""
+    errs = []
+
+    def stage(fn):
+        try:
+            fn()
+        except AnalysisError as e:
+            errs.append(e)
+
     mod = importlib.import_module('mstatic.rules.%s' % ctx.prop.lower())
-    mod.run(ctx)
+    stage(lambda: mod.run(ctx))
     from mstatic.rules import args
     if any(ctx.prop in t[0] for t in args.TABLE):
-        r = ctx.rule('RA', 'optional arguments that carry state between '
-                     'layers are still passed at the call sites where the '
-                     'default would break the property', 'ARGS')
-        args.explicit_args(ctx, r, ctx.prop)
+        def ra():
+            r = ctx.rule('RA', 'optional arguments that carry state between '
+                         'layers are still passed at the call sites where '
+                         'the default would break the property', 'ARGS')
+            args.explicit_args(ctx, r, ctx.prop)
+        stage(ra)
     from mstatic.rules import effects
     if any(ctx.prop in t[0] for t in effects.TABLE):
-        r = ctx.rule('RE', 'effects the property depends on are not '
-                     'conditioned on anything beyond their known enabling '
-                     'facts', 'GD-exact')
-        effects.required_effects(ctx, r, ctx.prop)
+        def re_():
+            r = ctx.rule('RE', 'effects the property depends on are not '
+                         'conditioned on anything beyond their known '
+                         'enabling facts', 'GD-exact')
+            effects.required_effects(ctx, r, ctx.prop)
+        stage(re_)
+    ctx.analysis_errors = errs
+    if errs and not any(r.violations for r in ctx.rules):
+        raise errs[0]
